@@ -3,7 +3,9 @@
    the name table c only), for every rule set R meeting the stated side conditions (the repaired
    tree's `fixed_rules` meets all of them, see the Examples), every name table, every state, every
    finite history over any number of threads (a list of operations tagged with thread ids IS an
-   interleaving). *)
+   interleaving).  The dispatch clause (P7: the theorems named C17_dispatch_..., C17_static_dispatch_..., C17_tenalg_call_...)
+   and initialize_backend (C17_initialize_...) are about Model/BackendDispatch.v, the layer on top of that machine:
+   what a dispatched name is bound to on each route and on which object a call through it runs. *)
 From Coq Require Import List Arith Bool.
 From TLV Require Import Model.Backend Model.BackendDispatch Proofs.BackendProofs Proofs.BackendNI Proofs.BackendTwo Proofs.BackendMicro Proofs.BackendNorm Proofs.BackendDispatch.
 Import ListNotations.
@@ -170,6 +172,26 @@ Theorem C17_non_instance_rejected : forall (R : rules) (c : cfg) (i : inst),
 Proof. exact non_instance_rejected. Qed.
 Print Assumptions C17_non_instance_rejected.
 
+(* where the shared default comes from: initialize_backend() at import (environment variable TENSORLY_BACKEND /
+   TENSORLY_TENALG_BACKEND, falling back to the built-in default name 0 with a warning when the requested name is not
+   listed).  If the resulting name can be loaded, EVERY thread sees its instance after import (the importing thread as
+   its own selection, all others as the shared default) and a warning was issued exactly for an unlisted request; the
+   import fails exactly when the resulting name is listed but cannot be loaded *)
+Theorem C17_initialize_ok : forall (R : rules) (c : cfg) (listed : name -> bool) (env : option name) (t0 : tid),
+  listed 0 = true -> known c (init_name listed env) = true ->
+  exists s, initialize R c listed env t0 = IOk (match env with Some n => negb (listed n) | None => false end) s /\
+    (forall t, cur s t = Named (init_name listed env)) /\ shared s = Named (init_name listed env) /\
+    dname s = init_name listed env /\
+    (forall t, tls s t = if Nat.eqb t t0 then Some (Named (init_name listed env)) else None) /\ (forall t, ctx s t = []).
+Proof. exact initialize_ok. Qed.
+Print Assumptions C17_initialize_ok.
+
+Theorem C17_initialize_fails_iff : forall (R : rules) (c : cfg) (listed : name -> bool) (env : option name) (t0 : tid),
+  listed 0 = true -> known c 0 = true ->
+  ((exists w, initialize R c listed env t0 = IFail w) <-> known c (init_name listed env) = false).
+Proof. exact initialize_fails_iff. Qed.
+Print Assumptions C17_initialize_fails_iff.
+
 (* P7 the dispatch clause, "dynamically dispatched functions always run on that backend", for every way a function
    is reached (Model/BackendDispatch.v: the class attributes installed by use_dynamic_dispatch / use_static_dispatch,
    the names tensorly/__init__.py binds at import, the module __getattr__, the class itself, references captured
@@ -299,6 +321,14 @@ Theorem C17_static_dispatch_frozen : forall (R : rules) (c : cfg) (D : drules) (
   (top_bound nc n = true -> d_top d n = Some (VWrapper n) -> dout R c D nc d' (DCall t RTop n) = DRan (cur (d_sel d') t)).
 Proof. exact static_dispatch_frozen. Qed.
 Print Assumptions C17_static_dispatch_frozen.
+
+Theorem C17_static_dispatch_frozen_attributes : forall (R : rules) (c : cfg) (D : drules) (nc : ncfg) (d : dst) (u : tid)
+    (h : list dop) (t : tid) (n : fname),
+  no_rebind h -> is_fun nc n = false -> is_attr nc n = true ->
+  let d' := drun R c D nc (dnxt R c D nc d (DStatic u)) h in
+  dout R c D nc d' (DCall t RMgr n) = DVal (cur (d_sel d) u) /\ dout R c D nc d' (DCall t RClass n) = DVal (cur (d_sel d) u).
+Proof. exact static_dispatch_frozen_attributes. Qed.
+Print Assumptions C17_static_dispatch_frozen_attributes.
 
 (* threads that start late: a thread that has not selected anything - in particular one started at this moment by
    anybody, inside or outside of any context - sees the shared default = the most recent NON-local selection of
@@ -605,3 +635,12 @@ Proof.
   - repeat constructor; discriminate.
   - vm_compute. reflexivity.
 Qed.
+
+(* non-vacuity of C17_initialize_*: names 0..2 loadable, 3 listed but not loadable, 9 not listed *)
+Example C17_initialize_nonvacuous :
+  let listed := fun n => Nat.leb n 3 in
+  (exists s, initialize fixed_rules cfg0 listed (Some 1) 0 = IOk false s /\ cur s 5 = Named 1 /\ dname s = 1) /\
+  (exists s, initialize fixed_rules cfg0 listed (Some 9) 0 = IOk true s /\ cur s 5 = Named 0) /\
+  (exists s, initialize fixed_rules cfg0 listed None 0 = IOk false s /\ tls s 0 = Some (Named 0) /\ tls s 5 = None) /\
+  initialize fixed_rules cfg0 listed (Some 3) 0 = IFail false.
+Proof. cbv zeta. repeat split; try (eexists; repeat split; reflexivity). Qed.
